@@ -106,8 +106,26 @@ def gen_command(rng, ci, cfg):
     if k < 93:
         return [{"stages": [{"kind": rng.choice(["notfound", "noexec"]),
                              "text": rng.choice(["no_such_cmd_zz", "./noexec"])}], "probe": False}]
-    # a function call (defined at the top of the script)
-    return [{"stages": [{"kind": "func", "text": "myfn"}], "probe": False, "raw": True, "text": "myfn", "dones": 3}]
+    if k < 96 or cfg.get("faults") or cfg.get("_exhausted"):
+        # a function call (defined at the top of the script)
+        return [{"stages": [{"kind": "func", "text": "myfn"}], "probe": False, "raw": True, "text": "myfn", "dones": 3}]
+    return [source_line(rng.below(4), ci)]
+
+
+def source_line(form, ci):
+    """the builtin `source` starting a program of its own -- plainly, or while its output is being captured for a
+    substitution (the capture pipes exist in the shell at that moment)"""
+    if form == 0:
+        return {"stages": [{"kind": "srcsub", "text": "source src0.sh"}], "probe": False, "raw": True,
+                "text": "source src0.sh", "dones": 2, "inner": ["src_inner"]}
+    if form == 1:
+        return {"stages": [{"kind": "srcsub", "text": "source"}], "probe": False, "raw": True,
+                "text": "pup k%d_o pre$(source src0.sh)post" % ci, "dones": 2, "inner": ["src_inner", "k%d_o" % ci]}
+    if form == 2:
+        return {"stages": [{"kind": "srcsub", "text": "source"}], "probe": False, "raw": True,
+                "text": "pup k%d_o `source src0.sh`" % ci, "dones": 2, "inner": ["src_inner", "k%d_o" % ci]}
+    return {"stages": [{"kind": "srcsub", "text": "source"}], "probe": False, "raw": True,
+            "text": "XS%d=$(source src0.sh)" % ci, "dones": 2, "inner": ["src_inner"]}
 
 
 def gen_scenario(rng, cfg):
@@ -116,7 +134,7 @@ def gen_scenario(rng, cfg):
     ncmd = 1 + rng.below(cfg.get("max_cmds", 8))
     exhaust_at = rng.below(ncmd) if cfg.get("rlimit") else -1
     for ci in range(ncmd):
-        cmd = gen_command(rng, ci, cfg)
+        cmd = gen_command(rng, ci, dict(cfg, _exhausted=(ci == exhaust_at)))
         if ci == exhaust_at:
             n = cfg["rlimit"] if isinstance(cfg["rlimit"], int) else 4 + rng.below(37)
             lines.append({"stages": [{"kind": "builtin", "text": "ulimit -n %d" % n}], "probe": False, "limit": n})
@@ -128,7 +146,9 @@ def gen_scenario(rng, cfg):
             lines.extend(cmd)
         if rng.chance(50) or ci == exhaust_at:
             lines.append({"stages": [pup("prb%d" % ci, {"t": "ignorer", "code": 0}, args=["$?"])], "probe": True})
-    sc = {"prop": "C08", "lines": lines, "externals": [], "faults": {}, "files": fw.to_json(),
+    files = fw.to_json()
+    files["src0.sh"] = "pup src_inner\n"
+    sc = {"prop": "C08", "lines": lines, "externals": [], "faults": {}, "files": files,
           "log_file": cfg.get("log_file") and rng.chance(50)}
     if cfg.get("faults"):
         kind = rng.choice(["pipe", "pipe", "fork"])
@@ -167,6 +187,10 @@ class C08Runner(LineRunner):
             # the function body: `alias` runs in-process, then one puppet
             return [{"stages": [{"kind": "pup", "name": "fn_inner", "text": "pup fn_inner",
                                  "role": {"t": "ignorer", "code": 0}}], "capture": False}]
+        if line.get("raw") and line["stages"][0]["kind"] == "srcsub":
+            # the sourced file starts one puppet; then (substitution forms) the outer command
+            return [{"stages": [{"kind": "pup", "name": n, "text": "pup " + n, "role": {"t": "ignorer", "code": 0}}],
+                     "capture": False} for n in line["inner"]]
         groups = LineRunner.line_groups(self, line)
         out = []
         for g in groups:
@@ -218,7 +242,10 @@ class C08Runner(LineRunner):
     def check_line_done(self, line, status):
         sim = self.sim
         now = self.shell_table()
-        base = {fd: l for fd, l in (self.shell_fds1 or self.shell_fds0).items() if fd < CTL_FD_MIN}
+        # (the reference table is taken at the shell's first message; if that came from inside `source`, the sourced
+        # file was open at that moment)
+        base = {fd: l for fd, l in (self.shell_fds1 or self.shell_fds0).items()
+                if fd < CTL_FD_MIN and not str(l).endswith("/src0.sh")}
         if now != base:
             leaked = sorted(fd for fd in now if fd not in base)
             lost = sorted(fd for fd in base if fd not in now)
@@ -368,6 +395,12 @@ def rlimit_sweep():
         ]
         sc = {"prop": "C08", "lines": lines, "externals": [], "faults": {}, "files": {}, "config": "rlimit_sweep",
               "adversarial_picks": 10}
+        out.append(plines.LineRunner.rebuild(sc))
+    # `source` starting a program, plainly and inside both substitution spellings and an assignment
+    for form in range(4):
+        lines = [source_line(form, 0), {"stages": [pup("prb", {"t": "ignorer", "code": 0}, args=["$?"])], "probe": True}]
+        sc = {"prop": "C08", "lines": lines, "externals": [], "faults": {}, "files": {"src0.sh": "pup src_inner\n"},
+              "config": "explicit_source", "adversarial_picks": 0}
         out.append(plines.LineRunner.rebuild(sc))
     # in-process builtins whose later redirect target cannot be opened after an earlier one was opened
     def out_r(fd, target, append=False):
